@@ -39,7 +39,8 @@ Definition model_obs (v : tval) : N * N * bool :=
 Open Scope N_scope.
 (* ---- histories (harness/cmd/c04/hist.go) --------------------------------------------------------------------
    case value: [ [validate_first; secret_isvalid] ; [99; routing] ; steps ; obs ]
-   step: open  [0; who (0 none 1 half 2 L 3 T 4 S 5 X); mid (0 none 1 m1 2 m2); secret (0 none 1 right 2 wrong); tun; registered]
+   step: open  [0; who (0 none 1 half 2 L 3 T 4 S 5 X); mid (0 none 1 m1 2 m2); secret (0 none 1 right 2 wrong); tun; registered;
+                     connection (0 = a new one = step index + 1, else the connection of an earlier step that sends this request too)]
          setm  [1; m; state (0 active 1 revoked 2 expired 3 inactive 4 missing)]
          route [2; tun; node (0 remove, 1 the other node, 2 THIS node: a record without a local bridge); m]      close [3; tun]      sleep [4]
          srv   [5; tun]   the server itself starts a tunnel on mapping 3 (StartServerTunnel; source = the server's own connection 999)
@@ -81,7 +82,8 @@ Definition h_step (v : variant) (cfg : config) (s : sys) (i : N) (st : tval) : (
   match vn (vnth 0 st) with
   | 0 => let cid := {| c_registered := vbool (vnth 5 st); c_client := h_client a |} in
          let r := h_req b c d in
-         (expected (open v cfg (s_db s) (s_tun s) (s_rt s) cid r), resolve_all v cfg (step v cfg s (EOpen (i + 1) cid r)))
+         (expected (open v cfg (s_db s) (s_tun s) (s_rt s) cid r),
+          resolve_all v cfg (step v cfg s (EOpen (if N.eqb (vn (vnth 6 st)) 0 then i + 1 else vn (vnth 6 st)) cid r)))
   | 1 => ((0, 0), resolve_all v cfg (step v cfg s (ESetMapping a (h_mapping a (h_state b)))))
   | 2 => ((0, 0), resolve_all v cfg (step v cfg s (ESetRoute (7 + a) (if N.eqb b 0 then None else Some {| ro_node := (if N.eqb b 2 then 1 else 2); ro_mid := c |}))))
   | 3 => ((0, 0), resolve_all v cfg (step v cfg s (ECloseBridge (7 + a))))
